@@ -49,6 +49,20 @@ impl PersistWal {
     /// Ensure writer is open
     fn ensure_writer(&mut self) -> StorageResult<&mut BufWriter<File>> {
         if self.writer.is_none() {
+            // A crash can leave a torn last line without its newline. The next entry
+            // must start on a line of its own, or it is glued to the torn one, fails
+            // the checksum with it at the next recovery and is lost.
+            let mut torn_tail = false;
+            if let Ok(mut existing) = File::open(&self.current_file) {
+                use std::io::{Read, Seek, SeekFrom};
+                let mut last = [0u8; 1];
+                if existing.seek(SeekFrom::End(-1)).is_ok()
+                    && existing.read_exact(&mut last).is_ok()
+                    && last[0] != b'\n'
+                {
+                    torn_tail = true;
+                }
+            }
             let file = OpenOptions::new()
                 .create(true)
                 .append(true)
@@ -64,7 +78,11 @@ impl PersistWal {
                     );
                     e
                 })?;
-            self.writer = Some(BufWriter::new(file));
+            let mut writer = BufWriter::new(file);
+            if torn_tail {
+                writer.write_all(b"\n")?;
+            }
+            self.writer = Some(writer);
         }
         Ok(self
             .writer
